@@ -135,6 +135,14 @@ def plant_term(R):
             eq_out = eq_param['value']
         elif kind == 'PDistrict':
             eq_out = P('peakingboilercost')['value']
+    # the equipment-cost parameter is overwritten in place by the correlation: the user's figure is the one in the input file
+    eq_in = eq_param['value'] if eq_param else 0.0
+    if eq_param and eq_param['provided']:
+        raw = R.snap.get('input_parameters', {}).get(eq_param['name'])
+        try:
+            eq_in = float(raw[0].split()[0]) if raw else eq_in
+        except (ValueError, IndexError):
+            pass
     eff = s.v('surfaceplant', 'enduse_efficiency_factor', 1.0)
     hp = s.v('surfaceplant', 'HeatProduced', [0.0])
     hp_over = max([x / eff for x in hp]) if isinstance(hp, list) and hp and eff else 0.0
@@ -143,7 +151,7 @@ def plant_term(R):
            'p_eq_in := %s; p_max_eq := %s; p_max_peaking := %s; p_corr := %s; p_max_hp_over_eff := %s; p_ratio_provided := %s; '
            'p_ratio_in := %s |}') % (
         kind, B(R.enduse in econ.COGEN), B(P('ccplantfixed')['valid']), Q(P('ccplantfixed')['value']), Q(P('ccplantadjfactor')['value']),
-        Q(mx('surfaceplant', 'HeatExtracted')), B(bool(eq_param and eq_param['provided'])), Q(eq_param['value'] if eq_param else 0.0),
+        Q(mx('surfaceplant', 'HeatExtracted')), B(bool(eq_param and eq_param['provided'])), Q(eq_in),
         Q(max_eq), Q(s.v('surfaceplant', 'max_peaking_boiler_demand', 0.0)), Q(s.v('economics', 'Cplantcorrelation', 0.0)), Q(hp_over),
         B(ratio['provided']), Q(ratio['value']))
     return (f'plant_agree {qconv.q(TOL)} {rec} {Q(P("Cplant")["value"])} {Q(eq_out)} {Q(s.v("economics", "CAPEX_cost_electricity_plant", 0.0))} '
